@@ -9,7 +9,16 @@
 //       equal value; and, for ARBITRARY octets b, as_mut() <- b makes as_ref() == b and the accessors
 //       decode b big-endian (`*_from_wire` harnesses: these are exactly the facts unit pdu_read assumes
 //       for the unsafe raw-pointer casts as_ref/as_mut).
-// All of these harnesses are loop-free over full-domain inputs (memcmp/memcpy over a constant length).
+// All of these harnesses are loop-free over full-domain inputs (memcmp/memcpy over a CONSTANT length: a
+// slice comparison whose length is symbolic makes CBMC unwind memcmp without bound, so harnesses branch
+// first and compare per fixed size).
+// Further: Payload::new / new_if_supported (version gating: origins from version 0, router keys from 1,
+// ASPA from 2), Payload::to_payload for EVERY prefix PDU (accepted iff prefix_len <= max_len <= family
+// maximum; item fields; the error PDU built otherwise), to_payload . new == id for origins (chain N/T/A/G,
+// see below), router keys and ASPA announcements with a static (allocation-free) Bytes, flags <-> Action,
+// RouterKey::new / Aspa::new length fields, Error::new layout (Kb: bounded sizes).
+// FINDING (harness pdu_payload_aspa_withdraw_roundtrip fails, replayed natively): an ASPA item written with
+// action Withdraw and a non-empty provider list comes back from to_payload with an empty provider list.
 //@features ca,rtr,slurm
 //@include addr_prefix
 
